@@ -159,6 +159,15 @@ MUTANTS = [
     m('C11', 'uniform_remainder', (GM, "                idx = np.random.choice(counts.size, extra, False, frac / frac.sum())", "                idx = np.random.choice(counts.size, extra, False)")),
     m('C11', 'first_column_from_uniform', (GM, "        marg = self.project([col]).datavector(flatten=False)\n        df.loc[:,col] = synthetic_col(marg, total)", "        marg = self.project([col]).datavector(flatten=False)\n        df.loc[:,col] = synthetic_col(np.ones_like(marg), total)")),
     m('C11', 'no_shuffle_no_problem_but_values_offset', (GM, "            vals = np.repeat(np.arange(counts.size), integ)", "            vals = np.repeat(np.arange(counts.size), integ) + (counts.size > 3)")),
+    # ---- C16 ------------------------------------------------------------
+    m('C16', 'gbp_final_normalisation_dropped', (RG, "            belief = potentials[r] + sum(self.messages[r1,r2] for r1,r2 in self.B[r])\n            belief += np.log(self.total) - belief.logsumexp()", "            belief = potentials[r] + sum(self.messages[r1,r2] for r1,r2 in self.B[r])\n            belief += np.log(self.total) - belief.max()")),
+    m('C16', 'gbp_cancellation_removed', (RG, "                        cancel = N[p,r] & D[p,r]\n                        N[p,r] = N[p,r] - cancel\n                        D[p,r] = D[p,r] - cancel", "                        cancel = N[p,r] & D[p,r]")),
+    m('C16', 'gbp_denominator_dropped', (RG, "                new[ru,rd] = num.logsumexp(diff) - denom", "                new[ru,rd] = num.logsumexp(diff)")),
+    m('C16', 'gbp_belief_misses_descendant_messages', (RG, "                    for d in self.descendants[r]:\n                        for p in set(self.parents[d]) - {r} - set(self.descendants[r]):\n                            B[r].add((p,d))  ", "                    pass")),
+    m('C16', 'lbp_excludes_wrong_message', (FG, "                    mu_f[cl][v] = potentials[cl] + pre - mu_n[v][cl]", "                    mu_f[cl][v] = potentials[cl] + pre")),
+    m('C16', 'lbp_var_to_factor_keeps_own', (FG, "                    mu_n[v][f] = pre - mu_f[f][v] #sum(mu_f[c][v] for c in complement)", "                    mu_n[v][f] = pre #sum(mu_f[c][v] for c in complement)")),
+    m('C16', 'fg_marginals_forget_total', (FG, "            belief += np.log(self.total) - belief.logsumexp()\n            marginals[cl] = belief.exp()", "            belief += - belief.logsumexp()\n            marginals[cl] = belief.exp()")),
+    m('C16', 'hps_belief_linear_overflow', (RG, "                belief += np.log(self.total) - belief.logsumexp()\n                mu[r] = belief.exp()", "                mu[r] = belief.exp()\n                mu[r] = mu[r] * (self.total / mu[r].sum())")),
 ]
 
 
